@@ -1573,6 +1573,29 @@ def _m_str_simple(name):
     return f
 
 
+def _m_str_removeprefix(i, s, a, k, n):
+    """s.removeprefix(p) == s[len(p):] if s.startswith(p) else s   (decided per path for symbolic strings)"""
+    p = a[0]
+    if isinstance(s, str) and isinstance(p, str):
+        return s.removeprefix(p)
+    if not isinstance(p, str):
+        raise Unsupported("removeprefix with a symbolic prefix", n)
+    if i.truth(_m_str_startswith(i, s, [p], {}, n), n):
+        return i.slice(s, len(p), None, None, n)
+    return s
+
+
+def _m_str_removesuffix(i, s, a, k, n):
+    p = a[0]
+    if isinstance(s, str) and isinstance(p, str):
+        return s.removesuffix(p)
+    if not isinstance(p, str) or not p:
+        raise Unsupported("removesuffix with a symbolic suffix", n)
+    if i.truth(_m_str_endswith(i, s, [p], {}, n), n):
+        return i.slice(s, None, -len(p), None, n)
+    return s
+
+
 def _m_list_append(i, l, a, k, n):
     i.mutated(l, n)
     l.items.append(a[0])
@@ -1729,8 +1752,8 @@ _METHODS = {
     ("str", "strip"): _m_str_simple("strip"),
     ("str", "lower"): _m_str_simple("lower"),
     ("str", "upper"): _m_str_simple("upper"),
-    ("str", "removeprefix"): _m_str_simple("removeprefix"),
-    ("str", "removesuffix"): _m_str_simple("removesuffix"),
+    ("str", "removeprefix"): _m_str_removeprefix,
+    ("str", "removesuffix"): _m_str_removesuffix,
     ("str", "partition"): _m_str_simple("partition"),
     ("list", "append"): _m_list_append,
     ("list", "extend"): _m_list_extend,
